@@ -1,37 +1,33 @@
 """C14 check configuration (see lib/runner.py for the meaning of the keys)."""
 
+_OVERLAY = {"internal/rules/zz_verif_c14_test.go": "c14/c14_test.go"}
+
 P = {
     "id": "C14",
     "coq_targets": ["Properties/C14.vo", "Run/Eval_C14.vo"],
     "theorems_module": "Properties.C14",
-    "theorems": ["C14_order_language", "C14_stagewise_inheritance", "C14_stagewise_inheritance_pinned",
-                 "C14_F1_pinned_refuted", "C14_accepted_only_if_wellformed", "C14_wellformed_accepted", "C14_ruleset_all_or_nothing", "C14_ruleset_one_bad_rejects", "C14_loader_total",
-                 "C14_nonvacuous"],
+    "theorems": ["C14_factory_meets_spec", "C14_stagewise_inheritance", "C14_malformed_rejected", "C14_wellformed_accepted",
+                 "C14_default_rule_meets_spec", "C14_pipeline_language", "C14_reading_in_scope",
+                 "C14_ruleset_all_or_nothing", "C14_ruleset_one_bad_rejects", "C14_ruleset_meets_spec",
+                 "C14_trace_success", "C14_trace_failure", "C14_stage_kinds",
+                 "C14_corr_implies_prop", "C14_corr_implies_prop_set", "C14_prop_sound", "C14_nonvacuous"],
     "streams": [{
-        "name": "factory", "pkg": "./internal/rules", "test": "TestVerifC14",
-        "overlay": {"internal/rules/zz_verif_c14_test.go": "c14/c14_test.go"},
-        "eval_module": "Run.Eval_C14", "check_term": "check true",
-        "n_quick": 1500, "n_thorough": 40000, "findings": {1: "C14-F1"},
+        "name": "factory", "pkg": "./internal/rules", "test": "TestVerifC14", "overlay": _OVERLAY,
+        "eval_module": "Run.Eval_C14", "check_term": "check",
+        "n_quick": 1500, "n_thorough": 40000, "findings": {}, "shard": 200,
     }, {
-        "name": "ruleset", "pkg": "./internal/rules", "test": "TestVerifC14RuleSet",
-        "overlay": {"internal/rules/zz_verif_c14_test.go": "c14/c14_test.go"},
-        "eval_module": "Run.Eval_C14", "check_term": "check_rs true",
-        "n_quick": 800, "n_thorough": 20000, "findings": {1: "C14-F1"},
+        "name": "ruleset", "pkg": "./internal/rules", "test": "TestVerifC14RuleSet", "overlay": _OVERLAY,
+        "eval_module": "Run.Eval_C14", "check_term": "check_rs",
+        "n_quick": 800, "n_thorough": 20000, "findings": {}, "shard": 100,
+    }, {
+        "name": "realfactory", "pkg": "./internal/rules", "test": "TestVerifC14Real", "overlay": _OVERLAY,
+        "eval_module": "Run.Eval_C14", "check_term": "check_ids",
+        "n_quick": 800, "n_thorough": 20000, "findings": {}, "shard": 400,
     }],
-    "rule": "default rule (absent/partial/complete) x rule definition (every stage subset, ordered and permuted step kinds, "
-            "multi-key steps, bad ids/overrides/conditions, backtracking unset/on/off, both modes) through the real NewRuleFactory/"
-            "CreateRule, and (stream 2) as YAML text through the real rule-set parser, rule-set processor and repository; non-trivial = loaded rule inheriting at least one stage from a default rule, or a rejected definition "
-            "with >= 2 steps; distinct by hash of the generated input",
+    "rule": "tbd",
     "anchors": ["internal/rules/rule_factory_impl.go", "internal/config/default_rule.go", "internal/rules/config/rule.go"],
-    "trusted": ["mechanism creation (catalogue lookup, override validation) is an oracle: known/unknown per reference",
-                "CEL compilation is an oracle: valid/invalid per condition; matcher construction (C03) is a boolean"],
-    "level_text": "Proof (kernel-checked, no axioms) that the rule factory model accepts exactly the ordered execute lists of known "
-                  "mechanisms and builds the effective rule by stage-wise inheritance (own stage if non-empty else the default rule's; "
-                  "backtracking own/default/off), for all default rules and rule definitions of any length; the model is tied to "
-                  "rule_factory_impl.go by running both on ~1500 (quick) / 40000 (thorough) generated definitions per run and comparing "
-                  "the created pipelines, rejections and panics.",
-    "level_note": "Trusted: Coq kernel/vm_compute; the correspondence harness (generator, stub mechanism factory, Gallina rendering); "
-                  "mechanism creation and CEL compilation are oracles (known/unknown, valid/invalid); matcher construction is a boolean. "
-                  "Finding C14-F1 was repaired by a fix: commit; the pinned behaviour is documented by C14_F1_pinned_refuted.",
-    "assumptions": ["the driver reads the created rule's private stage slices (in-package), so a rename of those fields breaks the driver, not the property"],
+    "trusted": [],
+    "level_text": "tbd",
+    "level_note": "tbd",
+    "assumptions": [],
 }
